@@ -71,7 +71,8 @@ class C18(CheckBase):
     required_probes = ['seconds_field_lt_10000', 'midnight_exact', 'year_rollover_between_reads', 'midnight_between_reads',
                        'creation_time_equals_data_start', 'old_count_digits_occur_elsewhere_in_header',
                        'header_contains_another_V', 'zero_line_width_1', 'zero_line_width_2', 'zero_line_width_3',
-                       'chain_depth_ge_2', 'multi_solution_station_removed', 'input_omits_zero_lines']
+                       'chain_depth_ge_2', 'multi_solution_station_removed', 'input_omits_zero_lines',
+                       'site_latitude_minus_zero_degrees']
     components = {
         'real': ['geodepy.gnss: set_creation_time, read_sinex_header_line, read_sinex_comments, the *_block readers, '
                  'read_sinex_estimate / read_sinex_matrix / read_sinex_sites, remove_stns_sinex, remove_velocity_sinex, '
@@ -573,7 +574,9 @@ class C18(CheckBase):
                 site, point, domes, obs, desc, lon, lat, h = g
                 want = {'site': s['code'], 'point': s['pt'], 'domes': s['domes'], 'obs': s['tech'], 'description': s['desc'][:22].strip(),
                         'lon': (True, s['lon'][0], s['lon'][1], s['lon'][2]),
-                        'lat': (s['lat'][0] > 0, abs(s['lat'][0]), s['lat'][1], s['lat'][2]), 'h': s['h']}
+                        'lat': (s['lat'][0] > 0, s['lat'][1], s['lat'][2], s['lat'][3]), 'h': s['h']}
+                if s['lat'][0] < 0 and s['lat'][1] == 0:
+                    bump('probe:site_latitude_minus_zero_degrees')
                 gotd = {'site': site.strip(), 'point': point.strip(), 'domes': domes.strip(), 'obs': obs.strip(), 'description': desc.strip(),
                         'lon': (lon.positive, lon.degree, lon.minute, lon.second), 'lat': (lat.positive, lat.degree, lat.minute, lat.second),
                         'h': h}
